@@ -82,6 +82,12 @@ var registry = map[string]*Prop{}
 
 func Register(p *Prop) { registry[p.ID] = p }
 
+// ruleAdditions: workload families added after a property's Rule text was written (kept apart so that the texts stay append-only).
+var ruleAdditions = map[string]string{}
+
+// ExtendRule appends a description of later workload families to the rule text reported in the evidence of property id.
+func ExtendRule(id, more string) { ruleAdditions[id] += " " + more }
+
 // Ctx is handed to Prop.Run in a child.
 type Ctx struct {
 	Prop    *Prop
@@ -313,6 +319,15 @@ func runChild(p *Prop, tier string, seed int64, shard, n, only int, reportPath s
 			c.progress = pf
 			defer pf.Close()
 		}
+	}
+	// the processes of one run differ in the number of processors the Go scheduler may use (an environment a library can depend on:
+	// "parallelised" kernels size their worker pools by it); workloads that manage it themselves (C20) set it per case anyway
+	if os.Getenv("VERIF_KEEP_PROCS") == "" && n > 1 && p.ID != "C20" {
+		procs := []int{1, 2, 3, 4, 5, 7, 0, 0}[shard%8] // 0: leave the default (all processors)
+		if procs > 0 {
+			runtime.GOMAXPROCS(procs)
+		}
+		c.rep.Counters[fmt.Sprintf("child_processes_run_with_GOMAXPROCS_%d", runtime.GOMAXPROCS(0))]++
 	}
 	p.Run(c)
 	c.rep.Done = true
@@ -609,7 +624,7 @@ func runParent(p *Prop, tier string, seed int64, only int) int {
 			coverage["evaluations"] = merged.Evaluations
 		}
 		coverage["distinct_nontrivial"] = len(merged.Keys)
-		coverage["rule"] = p.Rule
+		coverage["rule"] = p.Rule + ruleAdditions[p.ID]
 		coverage["samples"] = samples
 		coverage["distinct_key_examples"] = sortedKeys(merged.Keys, 25)
 		if p.Exhaustive != nil && p.Exhaustive(tier) {
